@@ -1326,6 +1326,8 @@ class Oracles:
         return len(rm.calls) + sum(1 for t in rm.tids if t in pm.tasks and not pm.tasks[t].started)
 
     def args_ok(self, rm: ReqM, c: CallRec) -> bool:
+        if c.uncallable:
+            return True
         if rm.spec.get("plain") and rm.kind not in ("apply", "start"):
             # call order is not observable: the arguments must be those of some element, in increasing element order
             prev = getattr(rm, "_last_el", -1)
